@@ -20,10 +20,10 @@ Inits == {<<>>, [x \in {"k1"} |-> NumV(10)]}     \* <<>> : the empty map
 
 Init ==
     \E sl \in Lists : \E t \in Tables : \E v0 \in Inits :
-        \/ VarsInit(<<[sel |-> sl, tbl |-> t]>>, v0)
+        \/ \E lm \in {-1, 1} : VarsInit(<<[sel |-> sl, tbl |-> t, lim |-> lm]>>, v0)
         \/ /\ Second
            /\ \E sl2 \in Lists2 : \E t2 \in {tt \in Tables : Len(tt) = 1} :
-                 VarsInit(<<[sel |-> sl, tbl |-> t], [sel |-> sl2, tbl |-> t2]>>, v0)
+                 VarsInit(<<[sel |-> sl, tbl |-> t, lim |-> -1], [sel |-> sl2, tbl |-> t2, lim |-> -1]>>, v0)
 Next == VarsNext
 Spec == Init /\ [][Next]_vvars
 
@@ -39,7 +39,7 @@ ItemAst(it) == CASE it.k = "set" -> [k |-> "item", as |-> "", e |-> [k |-> "fn",
 MapV(m) == ObjV(m)
 Export ==
     VarsDone => PrintT(ToJson([prog |-> [i \in DOMAIN prog |-> [sel |-> [j \in DOMAIN prog[i].sel |-> ItemAst(prog[i].sel[j])],
-                                                               tbl |-> ArrV(prog[i].tbl)]],
+                                                               tbl |-> ArrV(prog[i].tbl), lim |-> prog[i].lim]],
                                vars0 |-> MapV(vars0),
                                results |-> [i \in DOMAIN results |-> [rows |-> ArrV(results[i].rows), vars |-> MapV(results[i].vars)]],
                                ncalls |-> Len(calls)]))
